@@ -83,7 +83,9 @@ def judge(iso, kind, case, target, sigx):
         v('round-trip-raises', o.brief(), 'an equal isotherm', o.brief(), {'kind': o.kind})
         return out
     txt, back, txt2 = o.value
-    if type(back) is not type(iso):
+    # (an instance of a user subclass comes back as the library class it derives from)
+    lib_class = next(c_ for c_ in type(iso).__mro__ if c_.__module__.startswith('pygaps.'))
+    if type(back) is not lib_class:
         v('class-changed', f'{type(iso).__name__} came back as {type(back).__name__}')
         return out
     d1, d2 = iso.to_dict(), back.to_dict()
@@ -179,6 +181,30 @@ def work(arg):
                 res['nt'] += 1
         finally:
             pygaps.MATERIAL_LIST[:] = base_list
+    elif kind == 'subclass':
+        # an instance of a user subclass that adds nothing to the content: the document is that of the plain class
+        import pygaps
+
+        class LabPoint(pygaps.PointIsotherm):
+            def label(self):
+                return str(self.material)
+
+        class LabModel(pygaps.ModelIsotherm):
+            def label(self):
+                return str(self.material)
+        for target in ('string', 'file'):
+            if spec == 'point':
+                plain = g.mk_point(cfg, (4, 'guessable', 'numeric'), meta_small, scale)
+                iso = LabPoint(isotherm_data=plain.data_raw.copy(), pressure_key=plain.pressure_key, loading_key=plain.loading_key, **plain.to_dict())
+            elif spec == 'model':
+                plain = g.mk_model(cfg, 'Langmuir', meta_small)
+                iso = LabModel(model=plain.model, **plain.to_dict())
+            else:
+                plain = g.mk_model(cfg, 'Toth', meta_small)
+                iso = LabModel.from_pointisotherm(g.mk_point(cfg, (7, 'guessable', 'numeric'), meta_small, scale), model='Henry')
+            res['viol'] += judge(iso, 'point' if spec == 'point' else 'model', {'units': cfg, 'class': type(iso).__name__ + ' (user subclass)'}, target, {'class': 'user subclass'})
+            res['ev'] += 1
+            res['nt'] += 1
     elif kind == 'gapped-index':
         # a frame cut out of a larger table: row labels with gaps, not starting at 0
         import pygaps
@@ -276,6 +302,8 @@ def run(ctx):
         if ci in (0, 5):
             for cls in ('base', 'point', 'model'):
                 jobs.append(('registry-conflict', cfg, cls, ctx.scale))
+            for cls in ('point', 'model', 'fitted model'):
+                jobs.append(('subclass', cfg, cls, ctx.scale))
     res = core.pmap(work, jobs, chunk=8)
     for r in res:
         ctx.add('round_trips', r['ev'], r['nt'])
